@@ -169,12 +169,12 @@ def _rank(v):
 def compare(a, b):
     """-1/0/1 under: numbers < texts (case-insensitive) < FALSE < TRUE;
     blank = 0 = "" = FALSE; blank = blank."""
-    if a is None and b is None:
-        return 0
     if (a is None or b is None) and 'blank_compare_undecided' in QUIRKS:
         # used by checks that are not about comparisons: how a blank compares
-        # is decided in C09 only
+        # (also with another blank: blank>=blank) is decided in C09 only
         raise Undecided('comparison with a blank')
+    if a is None and b is None:
+        return 0
     if isinstance(a, str) and b is not None and not isinstance(b, str):
         FEATURES.add('text_left_str_compare')
         if 'text_left_str_compare' in QUIRKS:
